@@ -104,7 +104,7 @@ def run(ctx):
         if ctx.replay:
             traces = tg.parse_text(open(ctx.replay).read().split("\n"))
         else:
-            traces = tg.enumerated(3 if ctx.quick else 4)
+            traces = tg.fixed() + tg.enumerated(3 if ctx.quick else 4) + tg.enumerated(3 if ctx.quick else 4, nested=True)
             nrand = 150 if ctx.quick else 3000
             traces += [tg.random_trace(rng, "rand%d" % i) for i in range(nrand)]
         refs = [tg.classify(t) for t in traces]
@@ -127,26 +127,28 @@ def run(ctx):
             "discarded_trace_does_not_fit": summ.get("discarded", 0),
             "model_none": summ.get("model_none", 0), "spec_none": summ.get("spec_none", 0),
             "with_classing_json": sum(1 for t in traces if t.classing),
+            "nested_traces_outside_python_reference": sum(1 for r in refs if r.ill),
             "cores": dict(sorted(collections.Counter(t.cores for t in traces).items())),
-            "orders": "0..10", "trace_pages_max": max((len(t.events) // 255 + 1) for t in traces) if traces else 0,
-            "max_events": max((len(t.events) for t in traces), default=0)})
+            "orders": "0..10", "max_events": max((len(t.events) for t in traces), default=0)})
         byname = {t.name: t for t in traces}
-        seen_o = 0
         fails = sorted((len(byname[text.split()[0][6:]].events), kind, text) for kind, text in mism
                        if text.startswith("trace=") and text.split()[0][6:] in byname)
+        n_oracle = summ.get("oracle", 0)
+        shrunk = False
         for _, kind, text in fails:
             t = byname[text.split()[0][6:]]
             if kind == "ORACLE":
-                seen_o += 1
-                if seen_o > 2:
-                    continue
+                if shrunk:
+                    continue        # one shrunk witness is reported; the count of failing traces is in its text
+                shrunk = True
                 small = tg.ddmin(t.events, lambda evs: violates(exe, ctx, t.with_events(evs), "o") is not None)
                 mt = t.with_events(small, t.name + "-min")
                 why = violates(exe, ctx, mt, "o") or text
-                msg = "minimal trace [%s] (cores=%d max_pfn=%d classing=%d): %s" % (
+                msg = "minimal trace [%s] (cores=%d max_pfn=%d classing=%d): %s (%d of %d traces fail this oracle)" % (
                     " ; ".join("%s %d %d" % ("A" if e.alloc else "F", e.pfn, e.order) for e in small),
-                    mt.cores, mt.hdr_max_pfn, 1 if mt.classing else 0, why)
-                oracle.append((msg, ["# re-run: ./check C20 --replay <this file>", "# shrunk from trace %s (%d events)" % (t.name, len(t.events))] + mt.lines() + ["."]))
+                    mt.cores, mt.hdr_max_pfn, 1 if mt.classing else 0, why, n_oracle, summ.get("evaluations", 0))
+                oracle.append((msg, ["# re-run: ./check C20 --replay <this file>",
+                                     "# shrunk from trace %s (%d events)" % (t.name, len(t.events))] + mt.lines() + ["."]))
             else:
                 corr.append((text, ["# re-run: ./check C20 --replay <this file>"] + t.lines() + ["."]))
         for kind, text in mism:
@@ -168,8 +170,9 @@ def run(ctx):
         "free count is max_pfn minus what the trace holds (trace_held, a function of the trace alone; re-allocated-over "
         "blocks are counted explicitly as held). The model is tied to the compiled replay binary by running both on the "
         "same synthetic binary traces.",
-        "traces: all well-formed traces of up to 3 (quick) / 4 (thorough) events over pfns 4..7 at orders 0..2 "
-        "(every first/middle/last part at every sub-order) + seeded random traces of 8..400 events with orders 0..10, "
+        "traces: the traces of the Coq examples + all traces of up to 3 (quick) / 4 (thorough) aligned events over pfns 4..7 "
+        "at orders 0..2 that start with an allocation (every first/middle/last part at every sub-order; well-formed "
+        "ones and ones with nested allocations) + seeded random well-formed traces of 8..400 events with orders 0..10, "
         "partial frees, unknown frees, re-allocations, 1..8 cores, several cpu ids and trace pages, with and without "
         "--classing results/classes.json; evaluations = traces run through the real binary; non-trivial = the trace "
         "contains at least one partial free; distinct = distinct such traces (event sequences)")
